@@ -218,7 +218,7 @@ Qed.
 
 Lemma ginv_step s ev : GInv s -> bound_ev s ev = true -> GInv (step s ev).
 Proof.
-  intros G Hb. destruct ev as [r|r|nh mac|]; cbn [step].
+  intros G Hb. destruct ev as [r|r|nh mac|nh|nh|]; cbn [step].
   - destruct (managed s (r_if r)) eqn:M; [|exact G].
     destruct (ginv_kern_add s r G Hb M) as (G' & Hif). set (s1 := kern_add s r) in *.
     unfold add_new_route_entry. destruct (lookup (r_nh r) (kneigh s1)) as [mac|].
@@ -244,6 +244,8 @@ Proof.
     destruct (fold_same mac l s1) as (_ & Hu & _ & _ & Hn). cbn zeta in Hu, Hn.
     apply (ginv_mono _ _ G2); cbn [set_unres ncache gatecnt nhif unres]; [eauto|intros; lia|auto|].
     intros nh0 l0 r0. maps. eqb_cases; [discriminate|]. apply G2.
+  - apply (ginv_mono s); auto; cbn [no_addr ncache gatecnt nhif unres]; [eauto|intros; lia|apply G].
+  - apply (ginv_mono s); auto; cbn [no_addr ncache gatecnt nhif unres]; [eauto|intros; lia|apply G].
   - exact G.
 Qed.
 
@@ -424,7 +426,7 @@ Proof. intros Hn. apply (delete_effect s r Hn). Qed.
 
 Lemma no_updr_step s ev : no_updr s -> no_updr (step s ev).
 Proof.
-  intros Hs. destruct ev as [r|r|nh mac|]; cbn [step].
+  intros Hs. destruct ev as [r|r|nh mac|nh|nh|]; cbn [step].
   - destruct (managed s (r_if r)); [|apply Hs]. unfold add_new_route_entry.
     change (kneigh (kern_add s r)) with (kneigh s).
     destruct (lookup (r_nh r) (kneigh s)); [apply no_updr_nn; exact Hs|apply Hs].
@@ -435,12 +437,14 @@ Proof.
     change (unres s1) with (unres s). destruct (lookup nh (unres s)) as [[|r t]|]; try apply Hs.
     unfold no_updr. cbn [set_unres bs]. apply (no_updr_fold mac (r :: t) s1). exact Hs.
   - apply Hs.
+  - apply Hs.
+  - apply Hs.
 Qed.
 
 Lemma step_upd s ev u m :
   no_updr s -> lookup u (upd (bs s)) = Some m -> lookup u (upd (bs (step s ev))) = Some m.
 Proof.
-  intros Hn Hu. destruct ev as [r|r|nh mac|]; cbn [step].
+  intros Hn Hu. destruct ev as [r|r|nh mac|nh|nh|]; cbn [step].
   - destruct (managed s (r_if r)); [|auto]. unfold add_new_route_entry.
     change (kneigh (kern_add s r)) with (kneigh s).
     destruct (lookup (r_nh r) (kneigh s)) as [mac|]; [|exact Hu].
@@ -451,6 +455,8 @@ Proof.
   - unfold new_neigh. set (s1 := St _ _ _ _ (upsert nh mac (kneigh s)) _ _ _ _).
     change (unres s1) with (unres s). destruct (lookup nh (unres s)) as [[|r t]|]; try exact Hu.
     cbn [set_unres bs]. apply (fold_upd mac u m (r :: t) s1); auto.
+  - exact Hu.
+  - exact Hu.
   - auto.
 Qed.
 
@@ -807,10 +813,28 @@ Qed.
 Lemma is_none_true {A} (o : option A) : is_none o = true -> o = None.
 Proof. destruct o; [discriminate|reflexivity]. Qed.
 
+(* NEWNEIGH without a link-layer address / DELNEIGH for a next hop the kernel has no address for *)
+Lemma invM_no_addr uf s nh :
+  InvM s uf [] None -> lookup nh (kneigh s) = None -> InvM (no_addr s nh) uf [] None.
+Proof.
+  intros I Hk.
+  assert (Hsame : forall x, lookup x (remove nh (kneigh s)) = lookup x (kneigh s)).
+  { intros x. rewrite lookup_remove. destruct (eqb_spec x nh); congruence. }
+  constructor; cbn [no_addr unres kern kneigh ncache bs].
+  - intros nh0 l r Hne. rewrite Hsame. apply (mA2 _ _ _ _ I nh0 l r Hne).
+  - apply (mND _ _ _ _ I).
+  - intros p nh0 i. rewrite Hsame. apply (mA3 _ _ _ _ I).
+  - intros nh0 e. rewrite Hsame. apply (mA4 _ _ _ _ I).
+  - apply (mA5 _ _ _ _ I).
+  - intros p nh0 i m Hp. rewrite Hsame. apply (mA6 _ _ _ _ I p nh0 i m Hp).
+  - apply (mA11 _ _ _ _ I).
+  - exact (mU _ _ _ _ I).
+Qed.
+
 Lemma invM_step uf s ev :
   InvM s uf [] None -> wf_ev s ev = true -> (uf = true -> keepuser_ev s ev = true) -> InvM (step s ev) uf [] None.
 Proof.
-  intros I Hw Hkeep. destruct ev as [r|r|nh mac|]; cbn [step].
+  intros I Hw Hkeep. destruct ev as [r|r|nh mac|nh|nh|]; cbn [step].
   - destruct (managed s (r_if r)) eqn:M; [|exact I].
     cbn [wf_ev] in Hw. rewrite M in Hw. cbn [negb orb] in Hw. apply is_none_true in Hw.
     unfold add_new_route_entry. change (kneigh (kern_add s r)) with (kneigh s).
@@ -827,6 +851,8 @@ Proof.
       intros U. apply keepuser_other with (mac := mac); auto.
     + apply invM_delete_pending; assumption.
   - apply invM_newneigh; assumption.
+  - apply invM_no_addr; [exact I|]. cbn [wf_ev] in Hw. apply is_none_true in Hw. exact Hw.
+  - apply invM_no_addr; [exact I|]. cbn [wf_ev] in Hw. apply is_none_true in Hw. exact Hw.
   - exact I.
 Qed.
 
@@ -962,7 +988,7 @@ Lemma invP_step uf s ev :
   InvM s uf [] None -> InvP s uf -> good_ev s ev = true -> InvP (step s ev) uf.
 Proof.
   intros I J Hg. unfold good_ev in Hg. apply andb_true_iff in Hg. destruct Hg as (Hw & Hb).
-  destruct ev as [r|r|nh mac|]; cbn [step].
+  destruct ev as [r|r|nh mac|nh|nh|]; cbn [step].
   - destruct (managed s (r_if r)) eqn:M; [|exact J].
     pose proof (invP_kern_add uf s r J M Hb) as J1. pose proof (nhif_kern_add_nh s r Hb M) as Hnh.
     unfold add_new_route_entry. change (kneigh (kern_add s r)) with (kneigh s).
@@ -989,6 +1015,8 @@ Proof.
       destruct (mA2 _ _ _ _ I nh l x ltac:(discriminate) Eu Hx) as (A & B & _). rewrite A.
       exact (pA1 _ _ J _ _ _ B). }
     apply (invP_same uf _ _ J2); auto.
+  - apply (invP_same uf s _ J); auto.
+  - apply (invP_same uf s _ J); auto.
   - exact J.
 Qed.
 
@@ -1172,12 +1200,15 @@ Proof.
 Qed.
 
 (* non-vacuity: a guarded history with three routes waiting for one next hop (one of them deleted
-   while waiting, one announced twice), routes sharing a next hop, deletions, noise, an unmanaged interface *)
+   while waiting), ARP-timeout and DELNEIGH notifications in between, routes sharing a next hop, deletions, noise, an unmanaged interface *)
 Definition h_good : list event :=
-  [NewRoute (Route 0 1 0); NewRoute (Route 1 1 0); NewRoute (Route 6 1 0); DelRoute (Route 6 1 0);
-   NewNeigh 1 101; NewNeigh 2 102; NewRoute (Route 2 2 0);
+  [NewRoute (Route 0 1 0); NewRoute (Route 1 1 0); NeighNoAddr 1; NewRoute (Route 6 1 0); DelNeigh 1; DelRoute (Route 6 1 0);
+   NeighNoAddr 1; NewNeigh 1 101; NeighNoAddr 9; NewNeigh 2 102; NewRoute (Route 2 2 0);
    NewNeigh 4 104; NewRoute (Route 3 4 1); Noise; DelRoute (Route 0 1 0); NewRoute (Route 4 3 0); NewNeigh 3 103;
    NewRoute (Route 0 3 0); DelRoute (Route 4 3 0); NewRoute (Route 5 1 7)].
 (* the histories that refuted the mirror before the repair 1b62c73 (F29a, F29b) now satisfy it *)
 Definition h_overwritten : list event := [NewRoute (Route 0 1 0); NewRoute (Route 1 1 0); NewNeigh 1 101].
 Definition h_deleted_pending : list event := [NewRoute (Route 0 1 0); DelRoute (Route 0 1 0); NewNeigh 1 101].
+(* an ARP timeout (RTM_NEWNEIGH without NDA_LLADDR) while a route waits, then the route is withdrawn *)
+Definition h_failed_neigh : list event :=
+  [NewRoute (Route 0 1 0); NeighNoAddr 1; DelRoute (Route 0 1 0); DelNeigh 1; NewNeigh 1 101].
